@@ -604,8 +604,9 @@ type phLogEntry struct {
 // delivery is one message as it went over the wire (C10 replays the same
 // absolute messages in the crash run).
 type delivery struct {
-	PH   *tmconsensus.ProposedHeader
-	Vote *builtVote
+	PH     *tmconsensus.ProposedHeader
+	Vote   *builtVote
+	Replay *builtReplay
 }
 
 func (s *sim) deliverPH(ph tmconsensus.ProposedHeader) []tmconsensus.HandleProposedHeaderResult {
@@ -1279,6 +1280,10 @@ func (s *sim) execReplay(op Op) {
 	b := s.buildReplay(op)
 	if s.skipKnown(s.replayTrigger(b)) {
 		return
+	}
+	if s.recorder != nil {
+		rb := b
+		s.recorder(delivery{Replay: &rb})
 	}
 	resp := make(chan tmelink.ReplayedHeaderResponse, 1)
 	var out tmelink.ReplayedHeaderResponse
